@@ -23,6 +23,27 @@ fn main() {
         }
         return;
     }
+    if args[1] == "fuzz-replay" {
+        // vh fuzz-replay <structured|pipeline|parse_op|parse_schema> <artifact>: runs one libFuzzer input
+        // through the same glue in this (release, non-sanitized) binary, strict mode, with timing
+        unsafe { std::env::set_var("VH_FUZZ_STRICT", "1") };
+        let data = std::fs::read(&args[3]).unwrap();
+        let t0 = std::time::Instant::now();
+        let r = match args[2].as_str() {
+            "structured" => vh::fuzzglue::structured_verbose(&data),
+            "pipeline" => {
+                let text = String::from_utf8_lossy(&data).to_string();
+                match text.split_once("\n#####\n") {
+                    Some((a, b)) => vh::fuzzglue::project(a, b),
+                    None => Ok(()),
+                }
+            }
+            "parse_schema" => vh::fuzzglue::project(&String::from_utf8_lossy(&data), "query Q { __typename }\n"),
+            _ => vh::fuzzglue::parsers_only(&String::from_utf8_lossy(&data)),
+        };
+        println!("result: {:?} in {:?}", r.map_err(|f| (f.signature, f.message)), t0.elapsed());
+        return;
+    }
     if args[1] == "fuzz-seeds" {
         // vh fuzz-seeds <dir>: writes the tracked starting corpus of the cargo-fuzz targets
         vh::props::c08::write_fuzz_seeds(std::path::Path::new(&args[2]));
